@@ -4,7 +4,7 @@ set -u
 patch="$1"; shift
 cd /verif
 if [ -n "$(git -C /repo status --porcelain --untracked-files=no)" ]; then echo "repo not clean"; exit 2; fi
-git -C /repo apply "$patch" || { echo "patch does not apply"; exit 2; }
+git -C /repo apply "$patch" 2>/dev/null || (cd /repo && patch -p1 -F3 -s --no-backup-if-mismatch < "$patch") || { echo "patch does not apply"; git -C /repo checkout -- .; exit 2; }
 restore() {
   git -C /repo checkout -- .
   # rebuild the pristine binaries so that nothing stale from the seeded change is left in .target
